@@ -409,10 +409,12 @@ class Continuum:
         """
         from textgrid import TextGrid, IntervalTier
         tg = TextGrid.fromFile(str(tg_path))
-        for tier_name in tg.getNames():
+        for tier in tg.tiers:  # tiers themselves, not their names : two tiers can bear the same name
+            tier_name = tier.name
             if selected_tiers is not None and tier_name not in selected_tiers:
                 continue
-            tier: IntervalTier = tg.getFirst(tier_name)
+            if not isinstance(tier, IntervalTier):  # point tiers hold no interval
+                continue
             for interval in tier:
                 if not interval.mark:
                     continue
